@@ -51,7 +51,7 @@ def bounds(tier):
 
 
 def _styles(tier):
-    return ("asis", "multiline", "parens") if tier == "quick" else R.STYLES
+    return ("asis", "multiline", "parens", "lambda", "ctor") if tier == "quick" else R.STYLES
 
 
 def _blen(tier):
